@@ -79,7 +79,7 @@ type c06Config struct {
 	Family    string // "" | sibling-hooks | child-hooks | parent-hooks: another member of the logger family is derived with different terminal hooks (and used) first
 	Earlier   int    // crash-level entries (same level, through a sibling whose terminal hooks only record) logged earlier through the same core
 	StopFirst bool   // the BufferedWriteSyncer is stopped once BEFORE it is first used (clean-up code run early, a pool of syncers recycled)
-	Root      string // "" (zap.New(core, ...)) | NewNop+WrapCore | New(nil)+WrapCore: equivalent ways to arrive at the same logger
+	Root      string // "" (zap.New(core, ...)) | NewNop+WrapCore | New(nil)+WrapCore | Sugar.WithOptions | split: equivalent ways to arrive at the same logger
 	SyncErr   string // with Fault syncerr: the error value Sync reports: "" (generic) | EINVAL | ENOTTY | PathError
 	Deriv     string // "" | with | withlazy | named | hooks | hooks+withlazy | hooks+with | withlazy+hooks: how the logger under test is derived from the one built on the core
 }
@@ -322,7 +322,7 @@ func propC06(t *rapid.T) {
 	if cfg.Fault == "syncerr" {
 		cfg.SyncErr = rapid.SampledFrom([]string{"", "EINVAL", "ENOTTY", "PathError"}).Draw(t, "syncErrValue")
 	}
-	cfg.Root = rapid.SampledFrom([]string{"", "", "NewNop+WrapCore", "New(nil)+WrapCore"}).Draw(t, "root")
+	cfg.Root = rapid.SampledFrom([]string{"", "", "NewNop+WrapCore", "New(nil)+WrapCore", "Sugar.WithOptions", "split"}).Draw(t, "root")
 	cfg.StopFirst = cfg.BufSize >= 0 && rapid.IntRange(0, 3).Draw(t, "syncerStoppedBeforeFirstUse") == 0
 	cfg.Family = rapid.SampledFrom([]string{"", "", "sibling-hooks", "child-hooks", "parent-hooks"}).Draw(t, "family")
 	cfg.Deriv = rapid.SampledFrom([]string{"", "", "with", "withlazy", "named", "hooks", "hooks+withlazy", "hooks+with", "withlazy+hooks"}).Draw(t, "derivation")
@@ -395,6 +395,19 @@ func c06RunInProcess(t interface{ Fatalf(string, ...any) }, cfg c06Config) {
 		lg = zap.NewNop().WithOptions(append([]zap.Option{zap.WrapCore(func(zapcore.Core) zapcore.Core { return core })}, opts...)...)
 	case "New(nil)+WrapCore":
 		lg = zap.New(nil).WithOptions(append([]zap.Option{zap.WrapCore(func(zapcore.Core) zapcore.Core { return core })}, opts...)...)
+	case "Sugar.WithOptions":
+		// the sugared twin of Logger.WithOptions: the options mean the same there
+		lg = zap.New(core).Sugar().WithOptions(opts...).Desugar()
+	case "split":
+		// the same options, one WithOptions call each, alternating between the two kinds of logger
+		lg = zap.New(core)
+		for i, o := range opts {
+			if i%2 == 0 {
+				lg = lg.Sugar().WithOptions(o).Desugar()
+			} else {
+				lg = lg.WithOptions(o)
+			}
+		}
 	default:
 		lg = zap.New(core, opts...)
 	}
